@@ -117,7 +117,7 @@ func TestLifecyclersRapid(t *testing.T) {
 		var steps []step
 		nSteps := rapid.IntRange(3, vx.Pick(30, 45)).Draw(rt, "steps")
 		durs := []time.Duration{time.Millisecond, 300 * time.Millisecond, time.Second, 2 * time.Second, 5 * time.Second, 7 * time.Second, 12 * time.Second, 25 * time.Second, 70 * time.Second, 3 * time.Minute}
-		kinds := []string{"start", "start", "start", "stop", "restart", "advance", "advance", "advance", "advance", "changeState", "changeState", "readonly", "ready", "ready", "claim", "conflict", "conflict"}
+		kinds := []string{"start", "start", "start", "stop", "restart", "advance", "advance", "advance", "advance", "changeState", "changeState", "readonly", "ready", "ready", "claim", "conflict", "conflict", "lost-race", "lost-race"}
 		for i := 0; i < nSteps; i++ {
 			steps = append(steps, step{
 				Kind:  kinds[vx.Mix(rapid.Uint64().Draw(rt, "kind"), len(kinds))],
@@ -137,6 +137,7 @@ func TestLifecyclersRapid(t *testing.T) {
 			b.Cleanup(func() { _ = closer.Close() })
 			lg := &fakekv.Log{}
 			tampered := map[string]bool{} // instances whose entry the harness's conflict resolution has edited
+			racer := 0
 			var incs []*incarnation
 			cur := make([]*incarnation, n)
 			b.Cleanup(func() {
@@ -337,6 +338,28 @@ func TestLifecyclersRapid(t *testing.T) {
 					err := in.lc.Full.ClaimTokensFor(context.Background(), cfgs[s.From].ID)
 					in.rec.SetExplicit(false)
 					logf("%s claims the tokens of %s: %v", in.id, cfgs[s.From].ID, err)
+				case "lost-race":
+					// constructed: the lifecycler's next write loses a race against another member's write (its
+					// function is evaluated, the other write lands, the function is evaluated again on the new
+					// content): what the other member wrote must survive
+					if in == nil || !in.running {
+						continue
+					}
+					racer++
+					joiner := fmt.Sprintf("joiner-%d", racer)
+					tok := uint32(4000000000) + uint32(racer)
+					in.rec.Interpose = func() {
+						_ = store.CAS(context.Background(), lcx.RingKey, func(v interface{}) (interface{}, bool, error) {
+							rd := ring.GetOrCreateRingDesc(v)
+							// another member registers itself at this very moment
+							rd.AddIngester(joiner, joiner+":1", "z", []uint32{tok}, ring.ACTIVE, time.Now(), false, time.Time{}, nil)
+							return rd, true, nil
+						})
+					}
+					vx.Class("writes_that_lost_a_race", 1)
+					nontrivial = true
+					logf("the next write of %s loses a race against the registration of %s", in.id, joiner)
+					time.Sleep(in.lc.Cfg.HBPeriod + time.Second)
 				case "conflict":
 					// constructed: what a gossip store's conflict resolution does to a joining instance — one of
 					// its tokens disappears from its entry (the winner held it already) while it observes
